@@ -656,9 +656,10 @@ structure ShSet where
 
 def ShSet.sizesOK (s : ShSet) : Bool :=
   decide (shIndex s.N s.nmx s.mmx < s.csize) && decide (shIndex s.N s.nmx s.mmx < s.ssize + (s.N + 1))
-/-- the general constructor, as coded (a sum with `mmx = −1` is empty, and then `nmx = −1` is required as well) -/
+/-- the general constructor, as documented (`N ≥ nmx ≥ mmx ≥ −1`) with the coded refinement that a sum with `mmx = −1` is empty and then
+`nmx = −1` is required as well.  (The code omits `N ≥ −1` in the empty case: part of finding G13-3.) -/
 def ShSet.generalOK (s : ShSet) : Bool :=
-  (decide (s.N ≥ s.nmx ∧ s.nmx ≥ s.mmx ∧ s.mmx ≥ 0) || decide (s.nmx = -1 ∧ s.mmx = -1)) && s.sizesOK
+  (decide (s.N ≥ s.nmx ∧ s.nmx ≥ s.mmx ∧ s.mmx ≥ 0) || decide (s.N ≥ -1 ∧ s.nmx = -1 ∧ s.mmx = -1)) && s.sizesOK
 /-- the "full" constructor `(C, S, N)`: `nmx = mmx = N ≥ −1` -/
 def ShSet.fullOK (s : ShSet) : Bool := decide (s.N ≥ -1) && ({ s with nmx := s.N, mmx := s.N } : ShSet).sizesOK
 def ShSet.ok (full : Bool) (s : ShSet) : Bool := if full then s.fullOK else s.generalOK
